@@ -132,20 +132,28 @@ def shape_inh(cfg):
 
     def build(env, Base, opts):
         v = {'__versioned__': dict(opts)} if opts is not None else {}
+        xcol = {}
+        if cfg.get('base_excl'):
+            # the base class excludes its column x; with own_v every subclass declares a __versioned__ of its own
+            # (the style of tests/inheritance TestDeepJoinedTableInheritance), which does not repeat the exclusion
+            xcol = {'x': sa.Column(sa.Integer)}
+            if opts is not None:
+                v = {'__versioned__': dict(opts, exclude=['x'])}
+        own = {'__versioned__': dict(opts)} if (opts is not None and cfg.get('own_v')) else {}
         Item = type('Item', (Base,), dict(
             __tablename__='item',
             id=sa.Column(sa.Integer, primary_key=True, autoincrement=False),
             a=sa.Column(sa.Integer),
             kind=sa.Column(sa.String(10)),
-            __mapper_args__={'polymorphic_on': 'kind', 'polymorphic_identity': 'item'}, **v))
+            __mapper_args__={'polymorphic_on': 'kind', 'polymorphic_identity': 'item'}, **dict(v, **xcol)))
         Book = type('Book', (Item,), dict(
             __tablename__='book',
             id=sa.Column(sa.Integer, sa.ForeignKey('item.id'), primary_key=True, autoincrement=False),
             pages=sa.Column(sa.Integer),
-            __mapper_args__={'polymorphic_identity': 'book'}))
+            __mapper_args__={'polymorphic_identity': 'book'}, **dict(own)))
         Cd = type('Cd', (Item,), dict(
             tracks=sa.Column(sa.Integer),
-            __mapper_args__={'polymorphic_identity': 'cd'}))
+            __mapper_args__={'polymorphic_identity': 'cd'}, **dict(own)))
         env.classes = [Item, Book, Cd]
         env.assoc = []
     return build
@@ -232,6 +240,21 @@ def options_for(cfg):
     return o
 
 
+def effective_excluded(env, cls, key):
+    """Exclusion as the property states it: excluded by the options that apply to the class (its own __versioned__,
+    else the manager's), or inherited from a parent class whose own options exclude it (such a column has no
+    counterpart in any version table of the hierarchy)."""
+    if key in effective_option(env, cls, 'include'):
+        return False
+    if key in effective_option(env, cls, 'exclude'):
+        return True
+    for parent in cls.__mro__[1:]:
+        vo = parent.__dict__.get('__versioned__')
+        if vo is not None and key in vo.get('exclude', ()) and key not in vo.get('include', ()):
+            return True
+    return False
+
+
 def effective_option(env, cls, name):
     """The documented resolution of a versioning option: the class's __versioned__ wins, the value given to
     make_versioned() is the fallback (computed from what the harness configured, not through the package)."""
@@ -252,11 +275,8 @@ def reflect_cfg(env, cfg):
         colkeys = part['colkeys']
         versioned = hasattr(cls, '__versioned__')
         vo = getattr(cls, '__versioned__', {})
-        exclude = effective_option(env, cls, 'exclude')
-        include = effective_option(env, cls, 'include')
-
         def is_excl(key):
-            return key in exclude and key not in include
+            return effective_excluded(env, cls, key)
         cols = [dict(key=k, pk=part['pkcols'][i], excl=is_excl(k), here=part['here'][i]) for i, k in enumerate(colkeys)]
         rels = []
         for rk, r in m.relationships.items():
@@ -437,7 +457,7 @@ def gen_vals(rng, cfg, c):
     elif cfg['shape'] == 'own':
         names = ['a']
     elif cfg['shape'] == 'inh':
-        names = {0: ['a'], 1: ['a', 'pages'], 2: ['a', 'tracks']}[c]
+        names = {0: ['a'], 1: ['a', 'pages'], 2: ['a', 'tracks']}[c] + (['x', 'x'] if cfg.get('base_excl') else [])
     elif cfg['shape'] == 'dup':
         names = ['a', 'b']
     else:
@@ -484,8 +504,7 @@ class Recorder(object):
                 self.nonver_keys.append([k for k in self.colkeys[ci]
                                          if not any(c.primary_key for c in sa.inspect(cls).get_property(k).columns)])
             else:
-                ex, inc = effective_option(env, cls, 'exclude'), effective_option(env, cls, 'include')
-                self.nonver_keys.append([k for k in self.colkeys[ci] if k in ex and k not in inc])
+                self.nonver_keys.append([k for k in self.colkeys[ci] if effective_excluded(env, cls, k)])
         self.assoc_idx = {t: i for i, t in enumerate(env.assoc)}
         # table handles are resolved once: they must survive remove_versioning()
         self.vtabs = {}
